@@ -4,6 +4,7 @@ package main
 
 import (
 	"fmt"
+	"go/ast"
 	"go/constant"
 	"go/token"
 	"go/types"
@@ -48,6 +49,9 @@ type Ctx struct {
 	funcsByKey  map[string]*ssa.Function
 	extraDecls  []string
 	extraSeen   map[string]bool
+
+	constGlobals map[string]*T
+	allFuncs     map[*ssa.Function]bool
 }
 
 func Load(repo string) (*Ctx, error) {
@@ -455,4 +459,144 @@ func constToT(c *Ctx, v constant.Value, t types.Type) (T, bool) {
 		}
 	}
 	return T{}, false
+}
+
+// ---- immutable package-level variables ------------------------------------------------------
+//
+// A package-level array variable that is initialised with a composite literal of constants and
+// is never assigned outside the package initialiser is treated as the constant it is. The value
+// is taken from the syntax of the current tree, so changing the literal changes every obligation
+// that depends on it.
+
+func rootGlobal(v ssa.Value) *ssa.Global {
+	for {
+		switch x := v.(type) {
+		case *ssa.Global:
+			return x
+		case *ssa.FieldAddr:
+			v = x.X
+		case *ssa.IndexAddr:
+			v = x.X
+		default:
+			return nil
+		}
+	}
+}
+
+func (c *Ctx) ConstGlobal(pkgPath, name string) (T, bool) {
+	key := pkgPath + "." + name
+	if c.constGlobals == nil {
+		c.constGlobals = map[string]*T{}
+	}
+	if t, ok := c.constGlobals[key]; ok {
+		if t == nil {
+			return T{}, false
+		}
+		return *t, true
+	}
+	c.constGlobals[key] = nil
+	sp := c.SsaPkgs[pkgPath]
+	if sp == nil {
+		return T{}, false
+	}
+	g, ok := sp.Members[name].(*ssa.Global)
+	if !ok {
+		return T{}, false
+	}
+	// immutability: no store through the global outside init, address never escapes
+	for fn := range ssautilAll(c) {
+		if fn.Pkg != sp && fn.Pkg != nil {
+			// unexported globals cannot be reached from other packages; exported ones are not treated as constants
+			if g.Object() != nil && g.Object().Exported() {
+				return T{}, false
+			}
+			continue
+		}
+		if fn.Name() == "init" || strings.HasPrefix(fn.Name(), "init#") {
+			continue
+		}
+		for _, b := range fn.Blocks {
+			for _, in := range b.Instrs {
+				switch x := in.(type) {
+				case *ssa.Store:
+					if rootGlobal(x.Addr) == g {
+						return T{}, false
+					}
+					if rootGlobal(x.Val) == g {
+						return T{}, false
+					}
+				case *ssa.Call:
+					for _, a := range x.Call.Args {
+						if rootGlobal(a) == g {
+							return T{}, false
+						}
+					}
+				}
+			}
+		}
+	}
+	// value from the syntax
+	var pkg *packages.Package
+	packages.Visit(c.Pkgs, nil, func(p *packages.Package) {
+		if p.PkgPath == pkgPath {
+			pkg = p
+		}
+	})
+	if pkg == nil {
+		return T{}, false
+	}
+	at, ok := under(g.Type().(*types.Pointer).Elem()).(*types.Array)
+	if !ok || !isInteger(at.Elem()) {
+		return T{}, false
+	}
+	for _, f := range pkg.Syntax {
+		for _, d := range f.Decls {
+			gd, ok := d.(*ast.GenDecl)
+			if !ok {
+				continue
+			}
+			for _, s := range gd.Specs {
+				vs, ok := s.(*ast.ValueSpec)
+				if !ok {
+					continue
+				}
+				for i, n := range vs.Names {
+					if n.Name != name || pkg.TypesInfo.Defs[n] != g.Object() || i >= len(vs.Values) {
+						continue
+					}
+					cl, ok := vs.Values[i].(*ast.CompositeLit)
+					if !ok {
+						return T{}, false
+					}
+					sort := c.SortOf(at)
+					val := c.ZeroOfSort(sort)
+					w := intWidth(at.Elem())
+					for k, e := range cl.Elts {
+						if _, isKV := e.(*ast.KeyValueExpr); isKV {
+							return T{}, false
+						}
+						tv, ok := pkg.TypesInfo.Types[e]
+						if !ok || tv.Value == nil {
+							return T{}, false
+						}
+						bi, ok := newBig(constant.ToInt(tv.Value))
+						if !ok {
+							return T{}, false
+						}
+						val = Store(val, bvConst(uint64(k), 64), bvConstBig(bi, w))
+					}
+					c.constGlobals[key] = &val
+					return val, true
+				}
+			}
+		}
+	}
+	return T{}, false
+}
+
+func ssautilAll(c *Ctx) map[*ssa.Function]bool {
+	if c.allFuncs == nil {
+		c.allFuncs = ssautil.AllFunctions(c.Prog)
+	}
+	return c.allFuncs
 }
